@@ -448,6 +448,89 @@ fn orders_full_with_one_dup(n: usize) -> Vec<Vec<usize>> {
     out
 }
 
+/// Budget-limited sending on the unreliable channel over several ticks on a lossless, non-duplicating network: one
+/// message per tick (lengths `lens`, the same length may repeat), `budget` bytes per tick, optionally a small ordered
+/// message in the same tick (channel 1 comes after channel 0, so it only takes what is left). Whatever the sender
+/// decides to drop, the receiver must only ever obtain whole submitted messages, each at most once.
+pub fn unreliable_budget_case(lens: &[usize], budget: u64, dir: usize, with_ordered: bool) -> (u64, Option<Violation>) {
+    let mut cfg = LinkCfg::base("unreliable-under-a-tick-budget", chans(), chans());
+    cfg.bytes_per_tick = budget;
+    let mut l = Link::new(&cfg);
+    let r = (|| -> Result<(), Violation> {
+        for &len in lens {
+            l.send(dir, 0, len)?;
+            if with_ordered {
+                l.send(dir, 1, 7)?;
+            }
+            l.lockstep_tick(100)?;
+            check_lossless(&l)?;
+        }
+        for _ in 0..3 {
+            l.lockstep_tick(100)?;
+        }
+        check_lossless(&l)
+    })();
+    let obs: Vec<usize> = l.obtained[dir][0].iter().map(|g| g.bytes.len()).collect();
+    (h64(&(obs, lens, budget)), r.err())
+}
+
+fn check_lossless(l: &Link) -> Result<(), Violation> {
+    for dir in 0..2 {
+        for (ci, ch) in l.cfg.chans[dir].iter().enumerate() {
+            let sub = &l.submitted[dir][ci];
+            let mut used = vec![false; sub.len()];
+            for g in &l.obtained[dir][ci] {
+                // each obtained message consumes one distinct submission with the same bytes
+                match (0..sub.len()).find(|&i| !used[i] && sub[i] == g.bytes) {
+                    Some(i) => used[i] = true,
+                    None => {
+                        let again = sub.iter().any(|s| *s == g.bytes);
+                        return Err(Violation::new(
+                            if again { format!("C03/obtained-more-often-than-submitted/{:?}", ch.kind) } else { format!("C03/not-identical-to-a-submitted-message/{:?}", ch.kind) },
+                            format!(
+                                "channel {} ({:?}) dir {} on a lossless network with {} bytes per tick: obtained {} which {}",
+                                ch.id,
+                                ch.kind,
+                                dir,
+                                l.cfg.bytes_per_tick,
+                                describe(&g.bytes),
+                                if again { "was already obtained as often as it was submitted" } else { "matches no submitted message (partial or stitched)" }
+                            ),
+                        ));
+                    }
+                }
+            }
+        }
+    }
+    for e in 0..2 {
+        if let Some(r) = l.ends.disconnect_reason(e) {
+            return Err(Violation::new(
+                format!("C03/disconnected/{}", super::c01::reason_class(&r)),
+                format!("endpoint {} disconnected with {:?} in an honest exchange ({} bytes per tick)", e, r, l.cfg.bytes_per_tick),
+            ));
+        }
+    }
+    Ok(())
+}
+
+pub fn unreliable_budget_cases() -> Vec<(Vec<usize>, u64, usize, bool)> {
+    let alphabet = [1usize, 1200, 1201, 2400, 2401, 3000, 3600, 3601, 5000];
+    let budgets = [1200u64, 1300, 2400, 2500, 3000, 3599, 3600, 4800, 6000];
+    let mut out = vec![];
+    for &a in &alphabet {
+        for &b in &alphabet {
+            for &c in &alphabet {
+                for &bud in &budgets {
+                    for dir in 0..2 {
+                        out.push((vec![a, b, c], bud, dir, (a + b + c) % 2 == 1));
+                    }
+                }
+            }
+        }
+    }
+    out
+}
+
 pub fn run(tier: Tier) -> i32 {
     let mut rep = Report::new("C03", tier);
     // the thorough bounds of this property take seconds: the quick tier runs them too
@@ -479,6 +562,30 @@ pub fn run(tier: Tier) -> i32 {
                 .set("name", J::s(c.name.clone()))
                 .set("order", J::Arr(c.order.iter().map(|x| J::i(*x as u64)).collect())),
         );
+    }
+    // unreliable messages under a tick budget, over several ticks (what the sender drops must be dropped whole)
+    {
+        let ub = unreliable_budget_cases();
+        let r = explore::sweep(ub.len(), |i| unreliable_budget_case(&ub[i].0, ub[i].1, ub[i].2, ub[i].3));
+        rep.add_sweep(
+            "unreliable-under-a-tick-budget",
+            r.cases,
+            r.distinct_outcomes,
+            9,
+            vec!["every triple over {1,1200,1201,2400,2401,3000,3600,3601,5000} bytes, one message per tick on the unreliable channel, x tick budgets {1200,1300,2400,2500,3000,3599,3600,4800,6000} x direction, lossless network: only whole submitted messages, each at most once".to_string()],
+        );
+        for (i, v) in r.found {
+            rep.violation(
+                "unreliable-under-a-tick-budget",
+                v,
+                J::obj()
+                    .set("kind", J::s("unreliable-budget"))
+                    .set("lens", J::Arr(ub[i].0.iter().map(|x| J::i(*x as u64)).collect()))
+                    .set("budget", J::i(ub[i].1))
+                    .set("dir", J::i(ub[i].2 as u64))
+                    .set("with_ordered", J::Bool(ub[i].3)),
+            );
+        }
     }
     // scale class: every channel id a connection can have (0..=255), mixed kinds, both directions
     {
@@ -673,6 +780,26 @@ pub fn replay(j: &J) -> i32 {
         let len = j.get("len").and_then(|x| x.as_i()).unwrap_or(1_500_000) as usize;
         println!("big message case: kind {} length {}", k, len);
         return match big_message_case(k, len) {
+            Some(v) => {
+                println!("RESULT: violation {} — {}", v.signature, v.message);
+                1
+            }
+            None => {
+                println!("RESULT: no violation");
+                0
+            }
+        };
+    }
+    if j.get("kind").and_then(|k| k.as_str()) == Some("unreliable-budget") {
+        let lens: Vec<usize> = match j.get("lens") {
+            Some(J::Arr(a)) => a.iter().filter_map(|x| x.as_i()).map(|x| x as usize).collect(),
+            _ => vec![],
+        };
+        let budget = j.get("budget").and_then(|x| x.as_i()).unwrap_or(2400) as u64;
+        let dir = j.get("dir").and_then(|x| x.as_i()).unwrap_or(0) as usize;
+        let wo = matches!(j.get("with_ordered"), Some(J::Bool(true)));
+        println!("unreliable messages {:?}, one per tick, {} bytes per tick, dir {}, ordered companion {}", lens, budget, dir, wo);
+        return match unreliable_budget_case(&lens, budget, dir, wo).1 {
             Some(v) => {
                 println!("RESULT: violation {} — {}", v.signature, v.message);
                 1
